@@ -29,7 +29,7 @@ BUDGET = {
     "quick": {"cases": 6400, "seconds": 90, "shards": 8},
     "thorough": {"cases": 120000, "seconds": 900, "shards": 16},
 }
-REQUIRED_OBS = ["snapshots_compared", "dotted_path_cases", "predictions_compared", "ext:txt", "ext:csv", "model:supervised", "model:semi", "model:unsup",
+REQUIRED_OBS = ["snapshots_compared", "get_distances_of_file_backed_model_checked", "big_get_distances_pairs", "dotted_path_cases", "predictions_compared", "ext:txt", "ext:csv", "model:supervised", "model:semi", "model:unsup",
                 "get_distances_checked", "int16_dataset_cases", "normalised_request_first", "train_set_is_whole_file_shuffled", "asymmetric_metric_cases", "same_path_rewrite_checked"]
 MIN_NONTRIVIAL = 60
 FIELDS = ("cost", "pred", "predicted_label", "status", "root", "cluster_label", "density", "relevant")
@@ -182,6 +182,18 @@ def check(case):
                     res.violate("get_distances", "C10/get_distances-normalize-wrong", f"{kind}/{name}: get_distances(normalize=True) is not the min-max rescaling")
                     return res
                 res.see("get_distances_normalized_checked")
+                # the file-backed model reports the same matrices for its own training samples
+                gb = safe_call(B.get_distances)
+                if gb.ok and np.all(np.isfinite(np.asarray(gb.value, dtype=float))):
+                    gbn = safe_call(B.get_distances, True)
+                    res.see("get_distances_of_file_backed_model_checked")
+                    if not np.allclose(np.asarray(gb.value, dtype=float), ref, rtol=1e-12, atol=0):
+                        res.violate("get_distances", "C10/get_distances-wrong", f"{kind}/{name}: get_distances() of the model using the distance file differs from the metric on its training samples")
+                        return res
+                    if not gbn.ok or not np.allclose(np.asarray(gbn.value, dtype=float), want, rtol=1e-9, atol=1e-12):
+                        res.violate("get_distances", "C10/get_distances-normalize-wrong",
+                                    f"{kind}/{name}: get_distances(normalize=True) of the model using the distance file is not the min-max rescaling over its own training samples")
+                        return res
                 again = safe_call(A.get_distances)
                 if not again.ok or not np.array_equal(np.asarray(again.value, dtype=float), ref, equal_nan=True):
                     res.violate("get_distances", "C10/get_distances-wrong", f"{kind}/{name}: get_distances() after a normalised request no longer equals the metric on the ordered pairs")
@@ -210,3 +222,39 @@ def check(case):
         return res
     finally:
         shutil.rmtree(tmp, ignore_errors=True)
+
+
+def extra(tier, seed, shard=0, nshards=1):
+    """One designed large model (2100 training samples, data with a large offset and a small spread): the reported distance matrix is
+    compared with the metric on 40 000 sampled ordered pairs (a Gram-matrix shortcut would lose ~1e-4 relative to cancellation)."""
+    if shard != min(2, nshards - 1):
+        return []
+    from opfython.core.subgraph import Subgraph
+    from opfython.math.distance import DISTANCES
+
+    res = Result()
+    rng = np.random.default_rng([seed, 10, 2100])
+    n, d = 2100, 3
+    X = 1e4 + rng.normal(size=(n, d))
+    name = "euclidean" if seed % 2 else "squared_euclidean"
+    m = build_model("supervised", name)
+    m.subgraph = Subgraph(X.copy(), np.arange(n) % 2)
+    gd = safe_call(m.get_distances)
+    if not gd.ok:
+        res.violate("get_distances", f"C10/exception/get_distances/{type(gd.exc).__name__}", f"get_distances on {n} samples raised at {gd.where}")
+        return [({"big_get_distances": {"n": n, "metric": name}}, res)]
+    G = np.asarray(gd.value, dtype=float)
+    fn = DISTANCES[name]
+    ii, jj = rng.integers(0, n, size=40000), rng.integers(0, n, size=40000)
+    bad = 0
+    for a, b in zip(ii, jj):
+        want = float(fn(X[a].copy(), X[b].copy()))
+        if G[a, b] != want:
+            bad += 1
+            if bad == 1:
+                first = (int(a), int(b), float(G[a, b]), want)
+    res.see("big_get_distances_pairs", 40000)
+    if bad:
+        res.violate("get_distances", "C10/get_distances-wrong", f"supervised/{name}, {n} training samples: get_distances()[{first[0]}][{first[1]}] = {first[2]!r}, metric = {first[3]!r} ({bad} of 40000 sampled pairs differ)")
+    return [({"big_get_distances": {"n": n, "metric": name}}, res)]
+
